@@ -1316,7 +1316,12 @@ impl Value {
         let slice = PaddedSliceRead::new(buffer.as_mut_slice());
         let mut parser = Parser::new(slice).with_config(cfg);
         let mut vis = DocumentVisitor::new(json.len(), smut);
-        parser.parse_dom(&mut vis)?;
+        if let Err(err) = parser.parse_dom(&mut vis) {
+            // the strings of the padded copy are unescaped in place, so lines and columns must be
+            // counted in the original text
+            let index = err.offset();
+            return Err(crate::Error::syntax(err.error_code(), json, index));
+        }
         let idx = parser.read.index();
 
         // NOTE: root node should is the first node
